@@ -59,6 +59,13 @@ class paused:
     _state['enabled'] = self.prev
 
 
+def _fitted_state(est):
+  """Hyper-parameters and fitted attributes (scikit-learn convention:
+  public names, fitted ones end with an underscore).  Private attributes
+  (a lazily filled cache, say) are not "fitted state"."""
+  return {k: v for k, v in vars(est).items() if not k.startswith('_')}
+
+
 def _summ(x):
   if isinstance(x, np.ndarray):
     return ('nd', x.shape, str(x.dtype))
@@ -133,7 +140,7 @@ def _wrap(cls, name, orig):
       fparams = fp_map(self.get_params(deep=False))
     except Exception:
       fparams = None
-    fstate = fp_map(vars(self)) if name in QUERY else None
+    fstate = fp_map(_fitted_state(self)) if name in QUERY else None
     _state['depth'] += 1
     depth = _state['depth']
     exc = None
@@ -185,7 +192,7 @@ def _post(j, self, cname, name, args, kwargs, fa, fparams, fstate, exc,
         else:
           j.ok('G.C17.params')
     if fstate is not None and exc is None:
-      diff = fp_diff(fstate, fp_map(vars(self)))
+      diff = fp_diff(fstate, fp_map(_fitted_state(self)))
       if diff:
         j.violated('G.C17.state', {'est': cname, 'method': name,
                                    'changed': diff})
